@@ -370,9 +370,9 @@ EditField(P, F, Space) == \E f \in DOMAIN P : \E i \in 1..Len(P[f]) : EditAt(P, 
 \* passes a zone as its offset only, so a zone is rewritable between values without the -0000 flag.
 Rewritable(f, c, d) == /\ f \in RewriterFields /\ c.blank
                        /\ (f \in {"atz", "ctz"} => ~c[f].negutc /\ ~d[f].negutc)
-Rewrite(f, i) == /\ kind = "commit"
-                 /\ EditAt(CommitPool, CommitFields, CommitSpace, f, i)
-                 /\ Rewritable(f, case, case')
+RewriteIn(P, F, Space) == \E f \in RewriterFields : \E i \in 1..Len(P[f]) :
+                              EditAt(P, F, Space, f, i) /\ Rewritable(f, case, case')
+Rewrite == kind = "commit" /\ RewriteIn(CommitPool, CommitFields, CommitSpace)
 
 EditTree ==
     \E e \in TreeUniverse :
@@ -383,7 +383,7 @@ EditTree ==
 
 Next == /\ Edits
         /\ \/ kind = "commit" /\ EditField(CommitPool, CommitFields, CommitSpace)
-           \/ \E f \in RewriterFields : \E i \in 1..Len(CommitPool[f]) : Rewrite(f, i)
+           \/ Rewrite
            \/ kind = "tag" /\ EditField(TagPool, TagFields, TagSpace)
            \/ kind = "tree" /\ EditTree
 
